@@ -446,39 +446,37 @@ unsafe fn count_word_alloc(layout: core::alloc::Layout) -> *mut u8 {
     }
 }
 
-// @harness name=from_conversions_e2e props=C09,C01 class=B bound="source text <= 20 bytes, spare capacity of owned sources <= 24" unwind=24 tier=quick fn=From<&str>,From<String>,From<&String>,From<Box<str>>,From<Cow<str>>,FromStr covers=conv.e2e_inline,conv.e2e_heap,conv.e2e_spare timeout=1500
-#[kani::proof]
-#[kani::stub(alloc::alloc::alloc, count_word_alloc)]
-fn from_conversions_e2e() {
+fn conversions_e2e(owned_sources: bool) {
     arm_covers();
-    let text = "0123456789abcdefghij";
     let k: usize = kani::any();
-    kani::assume(k <= text.len());
+    kani::assume(k <= 20);
+    let sp: u8 = kani::any();
+    let spare: usize = if !owned_sources || sp == 0 { 0 } else if sp == 1 { 7 } else { 24 };
+    conversion_case(owned_sources, k, spare);
+}
+
+fn conversion_case(owned_sources: bool, k: usize, spare: usize) {
+    let text = "0123456789abcdefghij";
     let src = &text[..k];
-    let spare: usize = kani::any();
-    kani::assume(spare <= 24);
     let which: u8 = kani::any();
-    kani::assume(which <= 6);
-    let owned = |s: &str| {
-        let mut st = String::with_capacity(s.len() + spare);
-        st.push_str(s);
-        st
-    };
-    let st = owned(src);
+    let mut st = String::with_capacity(k + spare);
+    st.push_str(src);
     let before = unsafe { W_ALLOCS };
-    let out: LeanString = match which {
-        0 => LeanString::from(src),
-        1 => LeanString::from(st),
-        2 => LeanString::from(&st),
-        3 => LeanString::from(alloc::boxed::Box::<str>::from(src)),
-        4 => LeanString::from(Cow::Borrowed(src)),
-        5 => LeanString::from(Cow::<str>::Owned(st)),
-        _ => <LeanString as core::str::FromStr>::from_str(src).unwrap(),
+    let out: LeanString = if owned_sources {
+        if which == 0 { LeanString::from(st) } else { LeanString::from(Cow::<str>::Owned(st)) }
+    } else {
+        match which {
+            0 => LeanString::from(src),
+            1 => LeanString::from(&st),
+            2 => LeanString::from(alloc::boxed::Box::<str>::from(src)),
+            3 => LeanString::from(Cow::Borrowed(src)),
+            _ => <LeanString as core::str::FromStr>::from_str(src).unwrap(),
+        }
     };
     let n = unsafe { W_ALLOCS } - before;
     cov!(k <= 16 && k > 0, "conv.e2e_inline");
     cov!(k > 16, "conv.e2e_heap");
-    cov!(spare > 16 && (which == 1 || which == 5), "conv.e2e_spare");
+    cov!(spare > 16 || !owned_sources, "conv.e2e_spare");
     obl!(text_is(&out, src.as_bytes()), "conv.result_text_is_the_source_text", "C01,C09");
     if k <= 16 {
         obl!(!out.is_heap_allocated() && n == 0, "conv.le_16_bytes_stay_inline_without_allocation", "C09");
@@ -488,6 +486,40 @@ fn from_conversions_e2e() {
         obl!(out.capacity() == k, "conv.gt_16_bytes_capacity_is_len", "C09");
     }
     core::mem::forget(out);
+}
+
+// @harness name=from_conversions_e2e props=C09,C01 class=B bound="borrowed sources (&str, &String, Box<str>, Cow::Borrowed, FromStr), text <= 20 bytes" unwind=24 tier=quick fn=From<&str>,From<&String>,From<Box<str>>,From<Cow<str>>,FromStr covers=conv.e2e_inline,conv.e2e_heap timeout=1500
+#[kani::proof]
+#[kani::stub(alloc::alloc::alloc, count_word_alloc)]
+fn from_conversions_e2e() {
+    conversions_e2e(false);
+}
+
+// @harness name=from_owned_e2e props=C09,C01 class=B bound="owned sources (String, Cow::Owned), text <= 20 bytes, spare capacity 0 / 7 / 24" unwind=24 tier=quick fn=From<String>,From<Cow<str>> covers=conv.e2e_inline,conv.e2e_heap,conv.e2e_spare timeout=1500
+#[kani::proof]
+#[kani::stub(alloc::alloc::alloc, count_word_alloc)]
+fn from_owned_e2e() {
+    conversions_e2e(true);
+}
+
+// the same contract on CONCRETE (length, spare capacity) pairs around the 16-byte limit: cheap
+// enough to stay decidable when a conversion goes through `with_capacity` + `push_str`
+// @harness name=from_owned_cases props=C09,C01 class=B bound="owned sources (String, Cow::Owned); (len, spare) in {(0,24),(5,24),(12,7),(16,0),(16,24),(17,7),(20,0),(20,24)}" unwind=24 tier=quick fn=From<String>,From<Cow<str>> covers=conv.e2e_inline,conv.e2e_heap,conv.e2e_spare timeout=1500
+#[kani::proof]
+#[kani::stub(alloc::alloc::alloc, count_word_alloc)]
+fn from_owned_cases() {
+    arm_covers();
+    let sel: u8 = kani::any();
+    match sel {
+        0 => conversion_case(true, 0, 24),
+        1 => conversion_case(true, 5, 24),
+        2 => conversion_case(true, 12, 7),
+        3 => conversion_case(true, 16, 0),
+        4 => conversion_case(true, 16, 24),
+        5 => conversion_case(true, 17, 7),
+        6 => conversion_case(true, 20, 0),
+        _ => conversion_case(true, 20, 24),
+    }
 }
 
 static mut F_CALLS: usize = 0;
